@@ -678,6 +678,24 @@ class C20Monitor(Monitor):
             return
         if kind != "boundary":
             return
+        if str(x.desc.get("obj", "")).startswith("nan"):
+            # objective undefined on part of the box: ties among NaN individuals are settled at random by design, so only
+            # the clauses 'never invoke the objective' and 'never change the tree' are judged
+            dg = tree_digest(tree)
+            nlog = len(w.log)
+            for fn in (tree.summary, tree.tree, lambda: tree.best_individual, lambda: tree.all_individuals, lambda: tree.r5s_solutions):
+                try:
+                    fn()
+                except Exception as e:
+                    x.note(f"accessor raised {type(e).__name__} (NaN objective)")
+            for _, d in tree.all_demes:
+                d.best_individual, d.best_current_individual, d.centroid
+            if len(w.log) != nlog:
+                x.violate("C20/accessor-evaluated", f"accessors invoked the objective {len(w.log) - nlog} times (objective with NaN values)")
+            if tree_digest(tree) != dg:
+                x.violate("C20/accessor-changed-tree", "the tree digest changed while only reporting / query accessors were called (objective with NaN values)")
+            x.flag("boundary checked (NaN objective, reduced clauses)")
+            return
         dg = tree_digest(tree)
         nlog = len(w.log)
         st = np.random.get_state()[1].tobytes()
